@@ -48,7 +48,7 @@ theorem interp_verdict_sound (E : Hid.Env) (fuel : Nat) (c₀ : Hid.Cfg) :
 `Core.coreProg cf body` is a hand-written model of what `hidc` emits for programs of the core
 sub-language (one `@is_you()`, `int` locals, `+ - * / %`, unary `+ -`, comparisons, `and or not`,
 declarations, assignments, `write(int)`, `writeln`, character output, blocks, `if`, loops,
-`return`); the `core` correspondence suite checks on every run that it is *identical* to the
+`return`, and — see C02 — `try/undo` with `!is_defeat()` / `!truth_is_defeat(…)`); the `core` correspondence suite checks on every run that it is *identical* to the
 assembled output of the real compiler (every instruction, the const and state sections, the
 entry point) and that `Core.exec` agrees with the reference machine.  For that model: -/
 
@@ -60,14 +60,14 @@ timeline, and ends in the terminal loop. -/
 theorem core_semantic_preservation (cf : Core.Config) (body : Core.S) (hw : 2 ≤ cf.w)
     (hB : Core.funcLen cf.checked body + stdlibLength < 256 ^ cf.w)
     (hSE : 5 * cf.w + cf.stackWords * cf.w + cf.w < 256 ^ cf.w)
-    (hwf : Core.wfS [] body = true)
+    (hwf : Core.wfS [] body = true) (hyl : Core.youLevel body = true)
     (fuel : Nat) (env' : Core.Env) (tr : List Ev) (res : Core.Res)
     (hex : Core.exec (256 ^ cf.w) (8 * cf.w) fuel (fun _ => 0) body = some (env', tr, res))
     (hck : res = .div0 → cf.checked = true)
     (hroom : Core.pkS cf.w cf.w body ≤ (cf.stackWords + 1) * cf.w) :
     ∃ mEnd, Exec (sphinx (Core.coreProg cf body)) (Core.coreInit cf body) (tr ++ Core.terminalEvs res)
       ⟨tntPc (Core.funcLen cf.checked body), mEnd⟩ :=
-  let ⟨m, h, _⟩ := Core.core_correct cf body hw hB hSE hwf fuel env' tr res hex hck hroom
+  let ⟨m, h, _⟩ := Core.core_correct cf body hw hB hSE hwf hyl fuel env' tr res hex hck hroom
   ⟨m, h⟩
 
 /-- expressions: the emitted code computes `evalE` (the building block, for every placement) -/
@@ -86,9 +86,9 @@ theorem core_expression_correct {p : Prog} {ck : Bool} {B : Nat} (lib : Placed p
 /-- non-vacuity: a concrete core program satisfies every hypothesis of the theorem and prints -/
 example :
     let body : Core.S := .decl "x" (.lit 5) (.write (.bin .mul (.var "x") (.lit 3)) .ret)
-    Core.wfS [] body = true ∧ Core.pkS 2 2 body ≤ (100 + 1) * 2 ∧
+    Core.wfS [] body = true ∧ Core.youLevel body = true ∧ Core.pkS 2 2 body ≤ (100 + 1) * 2 ∧
     (Core.exec (256 ^ 2) 16 10 (fun _ => 0) body).map (fun r => (r.2.1, r.2.2)) = some (outs [49, 53], .returned) := by
-  refine ⟨by decide, by decide, ?_⟩
+  refine ⟨by decide, by decide, by decide, ?_⟩
   simp [Core.exec, Core.evalE, Core.upd, Core.aluOf, aluOp, wrapI, decimalW, digits, outs]
 
 end HidVerif.Props.C01
